@@ -10,6 +10,8 @@ package vsync
 import (
 	"sync"
 	"sync/atomic"
+
+	"github.com/wi1dcard/fingerproxy/pkg/vhook"
 )
 
 type (
@@ -53,6 +55,9 @@ func (m *Mutex) Unlock() {
 	default:
 		panic("vsync: unlock of unlocked mutex")
 	}
+	// a lock release is a scheduling point (only for checks that list the site): the goroutine can be parked
+	// between leaving a critical section and whatever it does with the result
+	vhook.Point("vsync.Unlock", m)
 }
 
 type RWMutex struct{ m Mutex }
